@@ -541,6 +541,38 @@ def l1_copyuid(m, part, r, n):
                            dict(level='L1', scenario='copyuid', srcs=srcs, dsts=dsts), signature='L1-copyuid')
 
 
+def l1_get_uids(part, r, n):
+    """the hypothesis of C03_copyuid_pairs on the real code: `get_uids` hands out the requested messages in strictly ascending UID order (and by UID exactly the
+    requested ones that exist), whatever the order and shape of the set"""
+    from datetime import datetime
+    from pymap.selected import SelectedMailbox
+    from pymap.flags import PermanentFlags, SessionFlags
+    from pymap.parsing.specials import ObjectId, SequenceSet
+    from pymap.parsing.specials.flag import Recent
+    from pymap.parsing.command.any import NoOpCommand
+    from pymap.backend.dict.mailbox import Message
+    for _ in range(n):
+        base = r.choice([1, 97, 101, 250])
+        uids = sorted(r.sample(range(base, base + 40), r.randint(2, 24)))
+        sel = SelectedMailbox(ObjectId(b'x'), False, PermanentFlags([]), SessionFlags([Recent]))
+        sel.add_updates([Message(u, datetime.now(), []) for u in uids], [])
+        sel, _ = sel.fork(NoOpCommand(b't'))
+        asked = r.sample(range(base - 2, base + 44), r.randint(1, 8))
+        if r.random() < 0.4:
+            lo = r.choice(uids)
+            asked += list(range(lo, lo + r.randint(1, 9)))
+        by_uid = r.random() < 0.7
+        if not by_uid:
+            asked = [a - base + 1 for a in asked if 1 <= a - base + 1 <= len(uids)] or [1]
+        got = list(sel.messages.get_uids(SequenceSet.build(asked, uid=by_uid)))
+        want = [(s, u) for s, u in enumerate(uids, 1) if (u if by_uid else s) in set(asked)]
+        part.stat('L1-get-uids')
+        part.case(key=f'get_uids:{uids}:{asked}:{by_uid}', nontrivial=len(want) > 1)
+        if got != want:
+            part.violation('monitor', f'get_uids of {"UID " if by_uid else ""}{sorted(set(asked))} in a view with UIDs {uids} returns {got}; the messages in ascending order are {want}',
+                           dict(level='L1', scenario='get-uids', uids=uids, asked=asked, by_uid=by_uid), signature='L1-get-uids')
+
+
 # ------------------------------------------------------------------ driver
 def worker(job):
     seed, n_l1, n_l3, corpus = job
@@ -560,6 +592,7 @@ def worker(job):
                 part.violation('correspondence', f'getPartial {b!r} {o} {n}: model {mod}', dict(level='L1', data=list(b), o=o, n=n),
                                signature='L1-partial')
         l1_copyuid(m, part, r, max(40, n_l1 // 10))
+        l1_get_uids(part, r, max(60, n_l1 // 10))
     finally:
         m.close()
     msgs = list(corpus) + [gen.message(r) for _ in range(n_l3)]
